@@ -133,7 +133,17 @@ fn serialize_batch(cases: &[&Case]) -> Vec<u8> {
 
 static CHILD_CASE_STARTED_MS: AtomicU64 = AtomicU64::new(u64::MAX);
 static CHILD_CASE: AtomicU32 = AtomicU32::new(0);
+/// CPU time one decode may consume (a correct decode of the largest input here needs a few ms)
 const CASE_TIMEOUT_MS: u64 = 4000;
+
+/// CPU time consumed by this process, in ms (insensitive to machine load, unlike wall-clock)
+fn cpu_ms() -> u64 {
+    let mut ts = libc::timespec { tv_sec: 0, tv_nsec: 0 };
+    unsafe {
+        libc::clock_gettime(libc::CLOCK_PROCESS_CPUTIME_ID, &mut ts);
+    }
+    ts.tv_sec as u64 * 1000 + ts.tv_nsec as u64 / 1_000_000
+}
 
 fn raw_write(s: &str) {
     unsafe {
@@ -148,7 +158,6 @@ fn child_main(verbose: bool) -> ! {
     decode::VERBOSE.store(verbose, Ordering::Relaxed);
     let mut input = Vec::new();
     std::io::stdin().read_to_end(&mut input).expect("stdin");
-    let t0 = std::time::Instant::now();
     // watchdog: a case that runs longer than CASE_TIMEOUT_MS is reported and the process ends
     std::thread::spawn(move || {
         loop {
@@ -156,10 +165,10 @@ fn child_main(verbose: bool) -> ! {
             let st = CHILD_CASE_STARTED_MS.load(Ordering::Relaxed);
             if decode::CAPTURING.load(Ordering::Relaxed) {
                 // symbolizing a backtrace for an oversize report: restart the clock of this case
-                CHILD_CASE_STARTED_MS.store(t0.elapsed().as_millis() as u64, Ordering::Relaxed);
+                CHILD_CASE_STARTED_MS.store(cpu_ms(), Ordering::Relaxed);
                 continue;
             }
-            if st != u64::MAX && (t0.elapsed().as_millis() as u64).saturating_sub(st) > CASE_TIMEOUT_MS {
+            if st != u64::MAX && cpu_ms().saturating_sub(st) > CASE_TIMEOUT_MS {
                 raw_write(&format!("\nT {} {}\n", CHILD_CASE.load(Ordering::Relaxed), decode::STAGE.load(Ordering::Relaxed)));
                 unsafe { libc::_exit(3) };
             }
@@ -191,7 +200,7 @@ fn child_main(verbose: bool) -> ! {
             let frame = &input[pos..pos + fl];
             pos += fl;
             CHILD_CASE.store(idx, Ordering::Relaxed);
-            CHILD_CASE_STARTED_MS.store(t0.elapsed().as_millis() as u64, Ordering::Relaxed);
+            CHILD_CASE_STARTED_MS.store(cpu_ms(), Ordering::Relaxed);
             let started = std::time::Instant::now();
             raw_write(&format!("I {idx}\n"));
             decode::counting_begin(idx, frame.len());
@@ -245,7 +254,9 @@ struct Outcome {
     peak: u64,
     hash: u64,
     typed: u32,
+    #[allow(dead_code)]
     rows: u32,
+    #[allow(dead_code)]
     micros: u64,
     /// oversize allocation report: (size, "single"|"total", stage, allocation site)
     oversize: Option<(u64, String, u32, String)>,
@@ -337,6 +348,7 @@ fn parse_child_output(stdout: &[u8], n: usize) -> (Vec<Option<Outcome>>, BTreeMa
 struct Runner {
     spawned: AtomicU64,
     crashes: AtomicU64,
+    wall_backstop_hits: AtomicU64,
 }
 
 impl Runner {
@@ -348,7 +360,8 @@ impl Runner {
             let slice = &cases[start..];
             let input = serialize_batch(slice);
             self.spawned.fetch_add(1, Ordering::Relaxed);
-            let wall = Duration::from_millis(30_000 + 50 * slice.len() as u64);
+            // wall-clock backstop only (the verdict clock is CPU time inside the child): generous, and hitting it is a machinery error
+            let wall = Duration::from_millis(600_000 + 200 * slice.len() as u64);
             let args: &[&str] = if verbose { &["--child", "--verbose"] } else { &["--child"] };
             let cr = vcore::sandbox::run_self(args, &input, wall);
             let (recs, allocs, panics, timeout, mut dumps, stages) = parse_child_output(&cr.stdout, slice.len());
@@ -390,6 +403,7 @@ impl Runner {
                 }
             }
             if cr.timed_out && o.status != 4 {
+                self.wall_backstop_hits.fetch_add(1, Ordering::Relaxed);
                 o.status = 4;
             }
             if tail.contains("overflowed its stack") {
@@ -401,6 +415,19 @@ impl Runner {
         }
         outcomes
     }
+}
+
+/// source location of a panic, made independent of where the repository is checked out
+fn panic_site(detail: &str) -> String {
+    let loc = detail.split(" | ").next().unwrap_or("?").trim();
+    if let Some(i) = loc.find("/scylla-cql") {
+        return loc[i + 1..].to_string();
+    }
+    if let Some(i) = loc.find("/registry/src/") {
+        let rest = &loc[i + "/registry/src/".len()..];
+        return rest.split_once('/').map(|x| x.1).unwrap_or(rest).to_string();
+    }
+    loc.rsplit('/').next().unwrap_or(loc).to_string()
 }
 
 fn feat_name(f: u8) -> String {
@@ -465,7 +492,7 @@ impl Oracle<'_> {
             Some(format!("alloc:{site}"))
         } else {
             match o.status {
-                2 => Some(format!("panic:{stage}:{shape}")),
+                2 => Some(format!("panic:{stage}:{}", panic_site(&o.detail))),
                 5 => Some(format!("stack-overflow:{stage}:{shape}")),
                 4 => Some(format!("timeout:{stage}:{shape}")),
                 3 => Some(format!("abort:{stage}:{shape}")),
@@ -513,7 +540,7 @@ impl Oracle<'_> {
             match o.status {
                 2 => format!("decode panicked at {} on {what_input}", o.detail),
                 5 => format!("stack overflow (2 MiB decode thread) in stage {stage} on {what_input}; {}", o.detail),
-                4 => format!("decode did not finish within {CASE_TIMEOUT_MS} ms in stage {stage} on {what_input}"),
+                4 => format!("decode still running after {CASE_TIMEOUT_MS} ms of CPU time in stage {stage} on {what_input}"),
                 3 => format!("decoder process died in stage {stage} on {what_input}; {}", o.detail),
                 _ => {
                     let exp = c.expect.clone().unwrap_or_default();
@@ -800,7 +827,7 @@ fn main() {
     }
     vcore::quiet_panics();
     let r = Report::new("C08", "enum", "exploration", "E-ENUM");
-    let oracle = Oracle { r: &r, runner: Runner { spawned: AtomicU64::new(0), crashes: AtomicU64::new(0) }, outcome_classes: Mutex::new(BTreeSet::new()), max_legit_single: AtomicU64::new(0), max_legit_peak: AtomicU64::new(0), max_legit_ratio_x1000: AtomicU64::new(0), unreproduced: AtomicU64::new(0), pinned: Mutex::new(BTreeSet::new()) };
+    let oracle = Oracle { r: &r, runner: Runner { spawned: AtomicU64::new(0), crashes: AtomicU64::new(0), wall_backstop_hits: AtomicU64::new(0) }, outcome_classes: Mutex::new(BTreeSet::new()), max_legit_single: AtomicU64::new(0), max_legit_peak: AtomicU64::new(0), max_legit_ratio_x1000: AtomicU64::new(0), unreproduced: AtomicU64::new(0), pinned: Mutex::new(BTreeSet::new()) };
     if let Some(case) = r.replay_case() {
         let c = Case::from_json(&case);
         let outs = oracle.runner.run(&[&c], true);
@@ -946,6 +973,9 @@ fn main() {
     r.note("largest_fraction_of_the_cap_used_by_a_well_formed_decode", json!(oracle.max_legit_ratio_x1000.load(Ordering::Relaxed) as f64 / 1000.0));
     r.note("allocation_cap", json!("64 KiB + 256 x frame length; single request and peak live bytes above the pre-decode level"));
     let unrep = oracle.unreproduced.load(Ordering::Relaxed);
+    if oracle.runner.wall_backstop_hits.load(Ordering::Relaxed) > 0 {
+        vcore::machinery_error("a child process hit the wall-clock backstop without consuming its CPU budget (machine overloaded or blocked child): no verdict");
+    }
     if classes.len() < 8 && r.args.extra_value("--only").is_none() {
         vcore::machinery_error("vacuity: fewer than 8 distinct (status, stage, class) outcomes");
     }
@@ -953,7 +983,7 @@ fn main() {
     if unrep > 0 && r.args.extra_value("--only").is_none() {
         vcore::machinery_error(&format!("{unrep} fatal outcomes did not reproduce when the case was re-run alone"));
     }
-    r.set_rule("E-ENUM with deviation bounding. 0 deviations: corpus of well-formed frames of every response kind (ERROR all 19 codes with extras, READY, AUTHENTICATE, SUPPORTED, RESULT void/rows/set_keyspace/prepared/schema_change, EVENT all kinds, AUTH_CHALLENGE/SUCCESS; rows over a depth-2 type alphabet incl. class-string forms and vectors, every metadata flag combination, 0..2 rows, cached-metadata twin for no_metadata) x extension subsets x {none, LZ4, Snappy} x {matches, literal-only} x feature combinations (quick: 4; thorough: all 16), decoded through read_response_frame -> parse_response_body_extensions -> ResponseV2::deserialize (+ legacy Response for events) -> deserialize_metadata -> rows as raw cells, as Row/CqlValue and as every typed tuple of the target alphabet that passes type_check; decoded text must equal the text derived from the cqlref model. 1 deviation: every stream truncation, every body truncation with consistent header, every length/count/flag/id field x {0,1,-1,-2,+1,-1,0x7fff,0xffff,i32::MAX,i32::MIN, bit flips, all type ids / result kinds / opcodes / error codes}, header fields, damaged compressed streams (every cut, every byte x 4 values, announced length), bad class strings, type nesting 1e2..1e6 (binary) and 4..7000 (class strings). 2 deviations (thorough): same-region field pairs. Sampled (labelled): random bodies behind valid headers. Oracle per case in a child process: no panic/abort/signal/stack overflow (2 MiB thread)/timeout; largest single request and peak live bytes <= 64 KiB + 256 x frame length by a counting allocator that reports before the request is served and refuses > 64 MiB. distinct_nontrivial = round trips that matched + deviations rejected with a clean error.");
+    r.set_rule("E-ENUM with deviation bounding. 0 deviations: corpus of well-formed frames of every response kind (ERROR all 19 codes with extras, READY, AUTHENTICATE, SUPPORTED, RESULT void/rows/set_keyspace/prepared/schema_change, EVENT all kinds, AUTH_CHALLENGE/SUCCESS; rows over a depth-2 type alphabet incl. class-string forms and vectors, every metadata flag combination, 0..2 rows, cached-metadata twin for no_metadata) x extension subsets x {none, LZ4, Snappy} x {matches, literal-only} x feature combinations (quick: 4; thorough: all 16), decoded through read_response_frame -> parse_response_body_extensions -> ResponseV2::deserialize (+ legacy Response for events) -> deserialize_metadata -> rows as raw cells, as Row/CqlValue and as every typed tuple of the target alphabet that passes type_check; decoded text must equal the text derived from the cqlref model. 1 deviation: every stream truncation, every body truncation with consistent header, every length/count/flag/id field x {0,1,-1,-2,+1,-1,0x7fff,0xffff,i32::MAX,i32::MIN, bit flips, all type ids / result kinds / opcodes / error codes}, header fields, damaged compressed streams (every cut, every byte x 4 values, announced length), bad class strings, type nesting 1e2..1e6 (binary) and 4..7000 (class strings). 2 deviations (thorough): same-region field pairs. Sampled (labelled): random bodies behind valid headers. Oracle per case in a child process: no panic/abort/signal/stack overflow (2 MiB thread)/more than 4 s of CPU time for one decode; largest single request and peak live bytes <= 64 KiB + 256 x frame length by a counting allocator that reports before the request is served and refuses > 64 MiB. distinct_nontrivial = round trips that matched + deviations rejected with a clean error.");
     r.set_exhaustive(true);
     r.assume("row iteration is consumer-driven: the harness pulls at most 4096 rows per iterator and stops at the first error; every step is checked");
     r.assume("the decode runs on a 2 MiB thread (tokio worker default), RLIMIT_AS 2 GiB protects the checker only; verdicts come from the counting allocator");
